@@ -633,6 +633,7 @@ theorem SI_step {c : Conn} (h : SI c) (op : Op)
   | release => exact SI_release h
   | addUserHandlers => exact SI_addUserHandlers h
   | setSmCallback => exact SI_same h (by simp [SameAll, step]) rfl
+  | setSendOnConnect on => exact SI_same h (by simp [SameAll, step]) rfl
 
 theorem SI_exec (ops : List Op) (hu : userOps ops) {c : Conn} (h : SI c) : SI (exec c ops) := by
   unfold exec
